@@ -52,6 +52,7 @@ def cases(tier, seed):
                 out.append(('closure', fam, th, tier, 1000 * seed + s))
             out.append(('record', fam, th, tier, 0))
         out.append(('fitted', fam, 0.0, tier, 0))
+        out.append(('tau0', fam, 0.0, tier, 0))
     return out
 
 
@@ -132,6 +133,44 @@ def run_case(case):
     r.nontriv()
     r.state(case)
 
+    if mode == 'tau0':
+        # a model at Kendall tau exactly 0 (fitted on such a table, or re-created from its dict): it either refuses to sample
+        # or samples the independence copula - never anything else
+        from copulas.bivariate.base import Bivariate
+        from mc.ref.kendall import tau_b
+        X0 = np.array([[0.2, 0.4], [0.4, 0.8], [0.6, 0.2], [0.8, 0.6]])
+        models = []
+        c0 = Bivariate(copula_type=fam, random_state=4)
+        try:
+            c0.fit(X0.copy())
+            models.append(('fitted on a table with tau = 0', c0))
+            try:
+                c1 = Bivariate.from_dict(c0.to_dict())
+                c1.set_random_state(4)
+                models.append(('re-created from the dict of that fit', c1))
+            except Exception:
+                pass
+        except Exception as e:
+            r.outcome(f'{fam}:tau0-fit-refused:{type(e).__name__}')
+        for how, cop in models:
+            r.tr()
+            try:
+                out = np.asarray(cop.sample(3000), float)
+            except Exception as e:
+                r.outcome(f'{fam}:tau0-sample-refused:{type(e).__name__}')
+                continue
+            r.ev()
+            okk = out.shape == (3000, 2) and np.all(np.isfinite(out)) and out.min() >= 0 and out.max() <= 1
+            if okk:
+                ks = max(np.max(np.abs(np.sort(out[:, j]) - (np.arange(3000) + 0.5) / 3000)) for j in (0, 1))
+                tt = tau_b(out[:, 0], out[:, 1])
+                okk = ks <= 0.06 and abs(tt) <= 0.06
+            if not okk:
+                r.violation(f'{sig}:tau0:sample', f'{fam} {how} (theta={cop.theta!r}, tau={cop.tau!r}): sample(3000) is not a sample '
+                            f'of the independence copula (first rows {out[:2].tolist() if out.ndim == 2 else out[:2]!r})', case=case)
+        r.hit('tau0')
+        r['sample'] = {'mode': mode, 'family': fam}
+        return r
     if mode == 'record':
         ref = Ref(fam, th)
         for seedform in ('none', 'int0', 'rs3'):
